@@ -309,6 +309,9 @@ def main(argv=None):
                 "solver VC against the symbolic buffer length or a concrete bounds test against the exact-size destination objects")
     # the element decoder itself (C17's own obligations model it as "reads exactly the encoding"): its byte-level obligations from C09, for every byte string
     chk.include("C09", only=r"decode-memory|canonical")
+    # every C struct must have the size and alignment of the C++ object its wrapper casts it to (an under-aligned or undersized C object is an
+    # out-of-bounds / misaligned access for a valid C caller): C19's layout and wrapper obligations
+    chk.include("C19")
     chk.run()
     chk.finish()
 
